@@ -68,17 +68,28 @@ def syntax_filter(ents, config, repo, extra_src=""):
         shutil.rmtree(tmp, ignore_errors=True)
 
 
-def build(config, repo=None, extra_entries=(), extra_src="", only=None):
+def build(config, repo=None, extra_entries=(), extra_src="", only=None, optional=()):
+    """optional: names of wrappers that are allowed not to compile (an input form the library may simply not define)"""
     repo = repo or P.REPO
     t0 = time.time()
     ents = ENT.entries() + list(extra_entries)
     if only is not None:
         ents = [e for e in ents if e.name in only]
     bad = syntax_filter(ents, config, repo, extra_src)
+    # a failing template specialisation is diagnosed once, at its first use: filter again until the rest is clean
+    for _ in range(12):
+        if not bad:
+            break
+        more = syntax_filter([e for e in ents if e.name not in bad], config, repo, extra_src)
+        if not more:
+            break
+        bad.update(more)
     skipped = {}
     for name, err in bad.items():
         if name in NOT_INSTANTIABLE:
             skipped[name] = NOT_INSTANTIABLE[name]
+        elif name in optional:
+            skipped[name] = "does not compile: " + err[:160]
         else:
             raise Broken("ANALYSIS-BROKEN: wrapper %s no longer compiles against the tree (%s): "
                          "a public entry point it anchors has vanished or changed signature" % (name, err))
